@@ -48,10 +48,12 @@ def main():
                 ckl.parser.parse_script(line, "{stdin}")
             except CklSyntaxError as e:
                 if e.msg.startswith("Unexpected end of input"):
-                    line += read_line("+ ")
+                    # the line break the user typed separates the tokens
+                    # (and ends a comment) like in a script file
+                    line += "\n" + read_line("+ ")
                     continue
             except Exception:
-                line += read_line("+ ")
+                line += "\n" + read_line("+ ")
                 continue
 
             if not line == ";":
